@@ -8,7 +8,7 @@ import z3
 from . import common, lib, den, equation_contracts, sector_contracts  # noqa
 from . import C18 as _c18  # noqa  (household constructors: the consumption function text)
 
-P = Property('C09', 'proof',
+P = Property('C09', 'other',
              'Contracts on the real AST of what carries the parameters and behavioural equations into the system: utils.format_parameter (the text written into an '
              'equation reads back as exactly the number given), BaseHousehold / Household / HouseholdWithExpectations.__init__ (consumption = AlphaIncome * '
              '(expected) AfterTax + AlphaFin * LAG_F, verified in C18). That the solved SIM, SIMEX1 and PC models and the hand-coded iterative SIM follow the '
